@@ -236,7 +236,7 @@ def r6_analytic_elimination(ctx):
             row = U(m_.slice)
     c, p = monomial(lc.elt, atom=lambda n: U(n))
     diff = [k for k in p if " - " in k]
-    ok = c == 1 and len(p) == 2 and "rA[ri, %s]" % di in p and len(diff) == 1 and linform(ast.parse(diff[0], mode="eval").body, atom=lambda n: U(n)) == {
+    ok = c == 1 and len(p) == 2 and p.get("rA[ri, %s]" % di) == {"1": 1} and len(diff) == 1 and p.get(diff[0]) == {"1": 1} and linform(ast.parse(diff[0], mode="eval").body, atom=lambda n: U(n)) == {
         "odesys.dep[%s]" % di: 1, "y0[odesys.dep[%s]]" % di: -1}
     ctx.check(ok, a, "term=rA[ri,d]*(y_d-y0_d)", "each term must be rA[ri, d] * (dep[d] - y0[dep[d]]); found %s" % U(lc.elt), node=terms)
     conds = " and ".join(U(x) for x in g.ifs)
@@ -250,6 +250,24 @@ def r6_analytic_elimination(ctx):
     ctx.check(has(fn, "rA, pivots = A.rref()") and has(fn, "for ri, ci1st in enumerate(pivots):") and has(fn, "if rA[ri, idx] == 0: continue"), a, "row-reduced-rows", "rows must come from A.rref() and zero coefficients be skipped", node=fn)
 
 
+def r7_verdicts(ctx):
+    """check_balance's verdict values: False/raise on the first non-zero net amount, True only after every reaction passed"""
+    fn = ctx.func(RSYS, "ReactionSystem.check_balance")
+    a = RSYS + ":ReactionSystem.check_balance"
+    last = fn.body[-1]
+    ctx.check(isinstance(last, ast.Return) and U(last.value) == "True", a, "balanced->True", "after all reactions passed the verdict must be True; found `%s`" % U(last), node=last)
+    ctx.check(has(fn, "if net != 0: if throw: raise ValueError(") and has(fn, "else: return False"), a, "unbalanced->raise-or-False",
+              "a non-zero net amount must raise (throw) or return False", node=fn)
+    cv = ctx.func(CHEM, "Reaction.composition_violation")
+    a2 = CHEM + ":Reaction.composition_violation"
+    ctx.check(has(cv, "ret_comp_keys = composition_keys is True") and has(cv, "if composition_keys in (None, True): composition_keys = Substance.composition_keys(values)"), a2,
+              "keys-from-substances", "with None/True the keys are all composition keys of the substances; True also returns them", node=cv)
+    ctx.check(has(cv, "if ret_comp_keys: return net, composition_keys else: return net"), a2, "returns-keys-with-net", "(net, keys) must be returned together when asked for", node=cv)
+    ck = ctx.func(CHEM, "Substance.composition_keys")
+    ctx.check(has(ck, "for k in s.composition.keys(): if k in skip_keys: continue keys.add(k)") and has(ck, "return sorted(keys)"), CHEM + ":Substance.composition_keys",
+              "all-keys-but-skipped", "every composition key of every substance is collected, except the ones explicitly skipped", node=ck)
+
+
 RULES = [
     Rule("C05-R1", r1_armed, 9, "balance check armed: in default_checks, run with throw=True, dominates constructor exits"),
     Rule("C05-R2", r2_all_reactions, 9, "check_balance: all reactions, all keys, no early True"),
@@ -257,6 +275,7 @@ RULES = [
     Rule("C05-R4", r4_matrix_orientation, 3, "invariant matrix orientation"),
     Rule("C05-R5", r5_single_matrix, 6, "one invariant matrix for linear_invariants and analytic solver"),
     Rule("C05-R6", r6_analytic_elimination, 5, "analytic elimination = row equation solved for the chosen column"),
+    Rule("C05-R7", r7_verdicts, 5, "verdict values of check_balance; key set of composition_violation"),
 ]
 
 MUTANTS = [
